@@ -44,3 +44,42 @@ impl AdjacencyListWeighted<usize> {
         }
     @*/
 }
+
+// ---- the proved postcondition at W = usize implies the Dgw trait-contract clauses (usize twin of
+// `lemma_weighted_meets_out_neighbors_weighted` of units/inc/rep_trait_contracts.inc.rs, which is stated at W = isize) ----
+
+/// the arc relation / weight function of the weighted list as the `has` / `wt` of a trait contract (ord := g.ord());
+/// same definitions as in units/inc/rep_trait_contracts.inc.rs
+spec fn whas<W>(g: AdjacencyListWeighted<W>) -> spec_fn(int, int) -> bool { |a: int, b: int| g.has(a, b) }
+spec fn wwt_usize(g: AdjacencyListWeighted<usize>) -> spec_fn(int, int) -> int { |a: int, b: int| g.wt(a, b) as int }
+spec fn val_usize() -> spec_fn(usize) -> int { |w: usize| w as int }
+
+/// OutNeighborsWeighted::out_neighbors_weighted at W = usize (the instance `Dgw`): the hypotheses are exactly the
+/// postcondition proved above.  Protocol, no vertex twice, soundness (Dgw clauses 1, 2, 3, 5) unconditionally; coverage
+/// (clause 4) under `r.will_return_none()`.
+proof fn lemma_weighted_usize_meets_out_neighbors_weighted<'a, I: Iterator<Item = (usize, &'a usize)>>(g: AdjacencyListWeighted<usize>, u: usize, r: I)
+    requires
+        u < g.ord(),
+        r.obeys_prophetic_iter_laws(),
+        r.decrease() is Some,
+        forall|i: int| 0 <= i < r.remaining().len() ==> g.has(u as int, (#[trigger] r.remaining()[i]).0 as int)
+            && *r.remaining()[i].1 == g.wt(u as int, r.remaining()[i].0 as int),
+        forall|i: int, j: int| 0 <= i < j < r.remaining().len() ==> (#[trigger] r.remaining()[i]).0 < (#[trigger] r.remaining()[j]).0,
+        r.will_return_none() ==>
+            forall|v: usize| g.has(u as int, v as int) ==> exists|i: int| 0 <= i < r.remaining().len() && (#[trigger] r.remaining()[i]).0 == v,
+    ensures
+        tc_iter(r),
+        tc_nbw_sound(whas(g), wwt_usize(g), val_usize(), u, r.remaining()),
+        r.will_return_none() ==> tc_nbw_cover(whas(g), u, r.remaining()),
+{
+    let rem = r.remaining();
+    assert forall|i: int| 0 <= i < rem.len() implies whas(g)(u as int, (#[trigger] rem[i]).0 as int)
+        && val_usize()(*rem[i].1) == wwt_usize(g)(u as int, rem[i].0 as int) by {
+        assert(g.has(u as int, rem[i].0 as int));
+    }
+    if r.will_return_none() {
+        assert forall|v: usize| #![trigger whas(g)(u as int, v as int)] whas(g)(u as int, v as int) implies exists|i: int| 0 <= i < rem.len() && (#[trigger] rem[i]).0 == v by {
+            assert(g.has(u as int, v as int));
+        }
+    }
+}
